@@ -147,9 +147,12 @@ def run(pid: str, tier: str, families=None, extra_requests=None, worker=None, va
     if task_filter:
         tasks = task_filter(tasks)
     wall_budget = None
-    if tier != "quick":
-        import os
+    import os
 
+    if pid == "C01":
+        # second solver: every k-th value query also goes to cvc5 (binary), verdicts must agree
+        os.environ.setdefault("VERIF_CVC5_EVERY", "400" if tier == "quick" else "1500")
+    if tier != "quick":
         wall_budget = int(os.environ.get("VERIF_THOROUGH_BUDGET_S", "2400"))
     results = ksweep.run_tasks(tasks, worker=worker, wall_budget=wall_budget)
     agg = {"paths": 0, "decisions": 0, "queries": 0, "solver_s": 0.0, "obligations": 0,
